@@ -123,6 +123,8 @@ v1_insert_new_version = """
 # - Remove the "NOT NULL" constraint from `version_index.git_commit`
 # - Add a `has_uncommitted_changes BOOL` column to `version_index`
 
+v1_to_v2_drop_tmp_table = "DROP TABLE IF EXISTS version_index_new"
+
 v1_to_v2_create_tmp_table = create_table.replace("version_index", "version_index_new")
 
 v1_to_v2_migrate_tmp_table = """
